@@ -642,7 +642,7 @@ func c07FileDiff(db *leveldb.DB, st *stor.Stor) (extra, missing []string) {
 }
 
 func runC07(c *Ctx) {
-	c.Res.Rule = "(1) DB programs biased to flushes, compactions, long-held iterators, discarded transactions and reopen (tiny buffers); every message of the real reference loop (f.ref/f.delta/f.rel/f.abandon hook events) is replayed through Model/RefLoop.lean and the tables the loop removes after each message must be the model's; oracles on the implementation: no table of a referenced-and-unreleased version is removed (loop decision and storage.Remove), held iterators are re-walked against their creation-time contents, storage == live tables + journal(s) + manifest at settled points and after reopen; non-trivial = tables were removed by the loop; (2) an iterator created on a just reopened DB (empty buffers, tables on ≥ 2 levels) and not touched, a CompactRange(all) right after so that the next version deletes tables of the pinned one, then ≥ 300 further version installs (more than maxCachedNumber cached version tasks: conversion to full references), tables live at its creation must stay in storage until it is released, the iterator is finally walked forwards and backwards against its creation-time contents, then storage must shrink to the live set, and after delete-all + CompactRange(all) the table bytes must fall below 2 blocks + 512; the loop's counters (VerifFileRefs) are compared with the model at idle points"
+	c.Res.Rule = "(1) DB programs biased to flushes, compactions, long-held iterators, discarded transactions and reopen (tiny buffers); every message of the real reference loop (f.ref/f.delta/f.rel/f.abandon hook events) is replayed through Model/RefLoop.lean and the tables the loop removes after each message must be the model's; oracles on the implementation: no table of a referenced-and-unreleased version is removed (loop decision and storage.Remove), held iterators are re-walked against their creation-time contents, storage == live tables + journal(s) + manifest at settled points and after reopen; non-trivial = tables were removed by the loop; (2) an iterator created on a just reopened DB (empty buffers, tables on ≥ 2 levels) and not touched, a CompactRange(all) right after so that the next version deletes tables of the pinned one, then ≥ 300 further version installs (more than maxCachedNumber cached version tasks: conversion to full references), tables live at its creation must stay in storage until it is released, the iterator is finally walked forwards and backwards against its creation-time contents, then storage must shrink to the live set, and after delete-all + CompactRange(all) the table bytes must fall below 2 blocks + 512; the loop's counters (VerifFileRefs) are compared with the model at idle points; (3) iterators obtained from a transaction and kept across its Discard (the removal of its tables is deferred to their release) while another transaction commits tables, Puts/CompactRange run or a third transaction is discarded: after every step and after each release all keys are readable (Get and scan = plain map), the held iterator still shows the discarded view, settled storage = live set"
 	w := DefaultWeights
 	w.Put, w.Del, w.Write = 40, 14, 8
 	w.Compact, w.Settle, w.Tx, w.Iter, w.Snap = 8, 6, 5, 10, 3
@@ -672,6 +672,11 @@ func runC07(c *Ctx) {
 			c.Res.Sample(map[string]interface{}{"kind": "program", "opts": p.Opts, "ops": len(p.Ops), "first_ops": p.Ops[:minInt(5, len(p.Ops))]})
 		}
 		if stop {
+			return
+		}
+	}
+	for i := 0; i < c.Scale(60, 1500) && c.TimeLeft() && !c.Hung; i++ {
+		if c07TxIter(c, c.R.Fork(), i) {
 			return
 		}
 	}
